@@ -5,7 +5,7 @@
     Theorems of this file are the links that belong to C07 alone. *)
 From Coq Require Import List NArith ZArith Bool Lia String.
 From BL Require Import Base.Bytes Reader.Entry Reader.SegMap Reader.EventStream Reader.RoundTrip Mser.Types Mser.Encode Mser.Tag Mser.Visit Mser.VisitProofs
-  Render.Time Render.Message Render.MessageProofs Render.FloatG Render.FloatGProofs.
+  Render.Time Render.Message Render.MessageProofs Render.ToStringProofs Render.FloatG Render.FloatGProofs Mser.TagProofs.
 Import ListNotations.
 
 (** severity, category, function, file, line, format, argument tags: every field of a registered source is read back as written *)
@@ -31,9 +31,31 @@ Theorem C07_message_of_arithmetic_arguments : forall ft cfg local tfmt cs fuel f
   message_loop ft cfg fuel local tfmt cs fmt (arg_tags args) (arg_bytes args) ts_init = (subst fmt (arg_texts ft args), true).
 Proof. exact message_of_arith_args. Qed.
 Print Assumptions C07_message_of_arithmetic_arguments.
-(** PARTIAL: composite arguments (containers, tuples, structs, enums, optionals, variants) reach the text through
-    visit (C06_visit_agrees_partial) and the ToString state machine; their notation is checked against an independent
-    rendering on the implementation and the model (tools/p_C07.py), not by a theorem. *)
+(** containers, tuples, structs, optionals and variants in the documented notation: the text ToStringVisitor produces for the callbacks of a
+    value is [text_of]: strings verbatim, [a, b], (a, b), Name{ f: v, g: w }, {null}, a variant as its active alternative - from any state of
+    the visitor (inside a sequence it is preceded by ", "), leaving the state as a single value does *)
+Theorem C07_value_text_is_documented_notation : forall ft v t inv, wt t v = true -> simple inv t = true -> t <> TUnit ->
+  prints ft (callbacks_b true t v) (text_of ft t v).
+Proof. exact tostring_prints. Qed.
+Print Assumptions C07_value_text_is_documented_notation.
+
+(** the whole message, for arguments of the [simple] universe (arithmetic, strings and other sequences of at most 32 elements, tuples, optionals,
+    variants, non-empty structs whose names the printStruct hook does not take over, nesting up to 2048): the format with each {} replaced in order
+    by the documented notation of the logged value. Links C04 (bytes), C06 (visit) and the state machine. *)
+Theorem C07_message_of_simple_arguments : forall ft cfg local tfmt cs fuel fmt (args : list targ),
+  (List.length fmt < fuel)%nat -> count_ph fmt = List.length args -> Forall (targ_ok (print_struct cfg local tfmt cs)) args ->
+  message_loop ft cfg fuel local tfmt cs fmt (targs_tags args) (targs_bytes args) ts_init = (subst fmt (targs_texts ft args), true).
+Proof. exact message_of_simple_args. Qed.
+Print Assumptions C07_message_of_simple_arguments.
+(** PARTIAL: adapted enums, empty structs, sequences of more than 32 elements (repeat collapsing), the special struct renderings (time points,
+    durations, addresses, paths, error codes) and recursive hand-written tags are outside these two theorems; they are checked against an
+    independent rendering on the implementation and the model (tools/p_C07.py). *)
+
+Example C07_composite_nonvacuous :
+  text_of float_text (TStruct (str "ns::Pt<int>") [(str "x", TArith AI32); (str "tags", Types.TSeq (mkSK true None) (Types.TSeq (mkSK true None) (TArith AChar))); (str "o", TOpt (TArith AU8))])
+                     (VTup [VRaw 4294967295%N; VSeq [VSeq [VRaw 97%N; VRaw 98%N]; VSeq []]; VNone])
+  = str "ns::Pt{ x: -1, tags: [ab, ], o: {null} }".
+Proof. vm_compute. reflexivity. Qed.
 
 (** integers exactly *)
 Example C07_integer_texts :
